@@ -317,6 +317,64 @@ def h_path(params, vals, ctx):
     return tag == "WAVCALL" and f == fmt and cb == b and len(cc) == 2 and cc[0] == img[0] and cc[1] == img[1] and cn == want_name
 
 
+def h_multi(params, vals, ctx):
+    """Several output directives in one source: one write per directive, in order, each with its own path, container and name."""
+    import pdpy11.compiler as C
+    from pdpy11 import reports
+    import contextlib, io
+    x, b = vals["X"], vals["B"]
+    require(-256 < x < 256 and 0 <= b < 65536)
+    dirs = params["directives"]  # [[directive, path, tape name or None], ...]
+    text = ".link {B}\n" + "".join(f'{d} "{p}"' + (f', "{n}"' if n is not None else "") + "\n" for d, p, n in dirs) + ".byte {X}, 2\n"
+    o = assemble([("/w/src/prog.mac", text)], vals, route=ctx.route, charset="utf-8")
+    ctx.observe_outcome(o)
+    ctx.reach(o.status == "ok")
+    if o.status != "ok" or o.errors:
+        return False
+    rec = Recorder()
+    real = C.open_device
+    C.open_device = rec.open_device
+    real_formats = dict(C.file_formats)
+    for f in ("bk_wav", "bk_turbo_wav"):
+        C.file_formats[f] = lambda base, code, name, _f=f: ("WAVCALL", _f, base, code, name)
+    try:
+        try:
+            with reports.handle_reports(lambda p, ident, *r: None):
+                with contextlib.redirect_stderr(io.StringIO()):
+                    was, first = o.comp.emit_files(o.base, o.code)
+        except reports.UnrecoverableError:
+            return False
+    finally:
+        C.open_device = real
+        C.file_formats.clear()
+        C.file_formats.update(real_formats)
+    if not was or len(rec.files) != len(dirs):
+        return False
+    if first["path"] != "/w/src/" + dirs[0][1] or first["format"] != DIRECTIVES[dirs[0][0]][0]:
+        return False
+    img = [x % 256, 2]
+    for (d, p, n), (path, mode, chunks) in zip(dirs, rec.files):
+        fmt = DIRECTIVES[d][0]
+        if path != "/w/src/" + p or mode != "wb" or len(chunks) != 1:
+            return False
+        blob = chunks[0]
+        if fmt == "raw":
+            if not (len(blob) == 2 and blob[0] == img[0] and blob[1] == img[1]):
+                return False
+        elif fmt == "bin":
+            if not (len(blob) == 6 and blob[0] + 256 * blob[1] == b and blob[2] + 256 * blob[3] == 2 and blob[4] == img[0] and blob[5] == img[1]):
+                return False
+        else:
+            tag, f, cb, cc, cn = blob
+            stem = p.split("/")[-1]
+            if stem[-4:].lower() == ".wav":
+                stem = stem[:-4]
+            want_name = (n if n is not None else stem).encode("utf-8")[:16].ljust(16, b" ")
+            if not (tag == "WAVCALL" and f == fmt and cb == b and len(cc) == 2 and cc[0] == img[0] and cc[1] == img[1] and cn == want_name):
+                return False
+    return True
+
+
 def h_fulltape(params, vals, ctx):
     """Concrete end-to-end side check: the real encode_as_wav output is read back by the independent tape reader.
     K only selects one of a few concrete payloads so that the obligation has a solver verdict too."""
@@ -371,6 +429,14 @@ def obligations(tier, seed):
                 continue
             obs.append(Ob(oid=f"path/{d}/{arg or 'default'}".replace("/", "_").replace("path_", "path/", 1), harness=P + "h_path",
                           params={"dir": d, "arg": arg}, vars={"I": "int", "X": "int", "B": "int"}, timeout=900, per_path=120))
+    multis = [
+        [["make_wav", "a.wav", "ONE"], ["make_wav", "b.wav", "TWO"]],
+        [["make_turbo_wav", "t1.wav", None], ["make_turbo_wav", "sub/t2.wav", None], ["make_wav", "n.wav", "N"]],
+        [["make_bin", "x.bin", None], ["make_raw", "x.raw", None], ["make_wav", "x.wav", "NAME"], ["make_bin", "y.bin", None]],
+        [["make_raw", "first.dat", None], ["make_bk0010_rom", "rom.bin", None]],
+    ]
+    for i, m in enumerate(multis):
+        obs.append(Ob(oid=f"multi/{i}", harness=P + "h_multi", params={"directives": m}, vars={"X": "int", "B": "int"}, timeout=600))
     payloads = [[0o1000, [0x10, 0x42], "test"], [0o40000, list(range(1, 40)), "LONGER-NAME-16ch"], [0, [], ""], [0o177776, [0xFF] * 300, "ff"]]
     obs.append(Ob(oid="fulltape/concrete", harness=P + "h_fulltape", params={"payloads": payloads}, vars={"K": "int"}, timeout=900, per_path=300,
                   note="concrete side check: whole pulse train read by ref.bk_tape.read_tape"))
